@@ -590,7 +590,49 @@ def check_A(case, stats=None):
                      patterns=False)
         for v in V2.out:
             V.bad(v['key'] + ':after-later-operations', v['what'])
+    if g is not None and not V.out:
+        # what the group (and the graph it stands on) hands out belongs to the
+        # caller: every returned list is edited, then the group is asked again
+        n_edited = vandalize_group(g)
+        if stats is not None:
+            stats['returned_lists_edited_by_the_caller'] += n_edited
+        if n_edited:
+            V3 = Viol(dict(case))
+            group_checks(g, kind, shape, first, label if (custom or kind == 'variable') else None, V3, None,
+                         patterns=False)
+            for v in V3.out:
+                V.bad(v['key'] + ':after-the-caller-edited-returned-lists', v['what'])
     return V.out, len(idxs_ref) > 0
+
+
+def vandalize_group(g):
+    got = []
+
+    def take(f, *a):
+        try:
+            got.append(f(*a))
+        except Exception:
+            pass
+    for name in ('domain', 'range'):
+        f = getattr(g, name, None)
+        if callable(f):
+            take(f)
+            for u in range(0, 5):
+                take(f, u)
+    G = getattr(g, 'G', None)
+    if G is not None:
+        for name in ('right_neighbors', 'left_neighbors', 'neighbors', 'successors', 'predecessors'):
+            f = getattr(G, name, None)
+            if callable(f):
+                for u in range(1, 6):
+                    take(f, u)
+    n = 0
+    for x in got:
+        if isinstance(x, list):
+            x.append(-7)
+            x.reverse()
+            n += 1
+    return n
 
 
 def cases_A(tier, seed):
